@@ -6,11 +6,13 @@
 // include spaces and unicode. For every path in the tree (files, directories, the root ""), with
 // redundant-slash spellings, and target selectors MatchUnixFSSelector (via UnixFSPathSelector),
 // MatchUnixFSPreloadSelector and MatchUnixFSEntitySelector:
-//   matchPath=false: WalkMatching yields exactly one match, at the target, bytes / entry names
-//     equal to the model;
-//   paths naming no entry (missing leaf, missing middle, through a file): zero matches;
-//   matchPath=true (case ids "matchpath:..."): matches are root, each intermediate node, target,
-//     once each and in that order.
+//
+//	matchPath=false: WalkMatching yields exactly one match, at the target, bytes / entry names
+//	  equal to the model;
+//	paths naming no entry (missing leaf, missing middle, through a file): zero matches;
+//	matchPath=true (case ids "matchpath:..."): matches are root, each intermediate node, target,
+//	  once each and in that order.
+//
 // Oracle: the in-memory model tree the DAG was built from.
 package c03
 
